@@ -87,14 +87,14 @@ var plans = map[string]propPlan{
 			{Name: "tz-kathmandu", Shards: 3, TZ: "Asia/Kathmandu"},
 		}
 	}},
-	"C13": {"exploration", plain(16)},
-	"C14": {"exploration", plain(16)},
-	"C15": {"exploration", plain(16)},
-	"C16": {"exploration", plain(16)},
-	"C17": {"fault_enumeration", plain(16)},
-	"C18": {"exploration", plain(16)},
-	"C19": {"exploration", plain(16)},
-	"C20": {"exploration", plain(16)},
+	"C13":  {"exploration", plain(16)},
+	"C14":  {"exploration", plain(16)},
+	"C15":  {"exploration", plain(16)},
+	"C16":  {"exploration", plain(16)},
+	"C17":  {"fault_enumeration", plain(16)},
+	"C18":  {"exploration", plain(16)},
+	"C19":  {"exploration", plain(16)},
+	"C20":  {"exploration", plain(16)},
 	"SELF": {"other", plain(2)},
 }
 
@@ -104,9 +104,9 @@ var floors = map[string][]string{
 	"C01": {"combo:", "start:mid-file", "start:4"},
 	"C02": {"unit:TxXID", "unit:TxRollback", "unit:Rotate", "unit:Restart", "rollback-empty-delivery", "metamorphic-equal"},
 	"C03": {"history:rotation", "history:large-offsets", "resumed", "chain:rotate-between", "label:offset>=2^31"},
-	"C04": {"fault:fin", "fault:rst", "fault:err", "fault:eof", "fault:cancel-master", "fault:cancel-handler", "fault:handler-err", "fault:mapper-err", "fault:mapper-count", "fault:inject-rowsquery", "fault:inject-invalid", "fault:short0", "fault:badseq", "fault:connect-refused", "fault:read-error"},
-	"C05": {"reader:network", "reader-busy-at-stop", "handler-at-stop:blocked", "handler-at-stop:slow", "quiescent", "cause:cancel", "cause:handler", "cause:preconnect", "cause:transport", "cause:master-err", "cause:eof", "cell:cancel/reader=network"},
-	"C06": {"cause:cancel", "cause:eof", "cause:master-err", "cause:transport", "cause:handler", "cause:mapper", "cause:gate-reject", "cause:unsupported-event", "cause:preconnect", "err-message-carried", "error-call:immediately", "error-call:after-quiescence"},
+	"C04": {"fault:fin", "fault:rst", "fault:err", "fault:eof", "fault:cancel-master", "fault:cancel-handler", "fault:handler-err", "fault:mapper-err", "fault:mapper-count", "fault:inject-rowsquery", "fault:inject-invalid", "fault:short0", "fault:badseq", "fault:connect-refused", "fault:read-error", "fault:inject-baddecode-before", "fault:inject-baddecode-write"},
+	"C05": {"reader:network", "reader-busy-at-stop", "handler-at-stop:blocked", "handler-at-stop:slow", "quiescent", "cause:cancel", "cause:handler", "cause:preconnect", "cause:transport", "cause:master-err", "cause:eof", "cause:undecodable-event", "cell:cancel/reader=network"},
+	"C06": {"cause:cancel", "cause:eof", "cause:master-err", "cause:transport", "cause:handler", "cause:mapper", "cause:gate-reject", "cause:unsupported-event", "cause:undecodable-event", "cause:preconnect", "err-message-carried", "error-call:immediately", "error-call:after-quiescence"},
 	"C07": {"attempt:position-set", "attempt:stored-position", "server-id>=2^31", "set-rejected", "stored-position-after-stream"},
 	"C08": {"mode:observe", "mode:scribble"},
 	"C15": {"stream:id-rebound-after-restart"},
@@ -575,17 +575,17 @@ func main() {
 		samples = []json.RawMessage{}
 	}
 	cov := map[string]interface{}{
-		"evaluations":          evals,
-		"distinct_nontrivial":  distinct,
-		"rule":                 rule,
-		"samples":              samples,
-		"exhaustive":           false,
+		"evaluations":           evals,
+		"distinct_nontrivial":   distinct,
+		"rule":                  rule,
+		"samples":               samples,
+		"exhaustive":            false,
 		"exhaustive_subdomains": exh,
-		"cells_observed":       cells,
-		"counters":             notes,
+		"cells_observed":        cells,
+		"counters":              notes,
 		"skipped_by_early_exit": skipped,
-		"passes":               passNames(passes),
-		"child_processes":      len(jobs),
+		"passes":                passNames(passes),
+		"child_processes":       len(jobs),
 	}
 	vlist := []map[string]interface{}{}
 	for _, v := range newVios {
